@@ -2,6 +2,11 @@
   Frost.Model.Map — `BTreeMap<Identifier, V>` / `BTreeSet<Identifier>` as
   association lists kept in the iteration order of the Rust map (ascending
   identifiers under `Ord for Identifier`, the suite's `idLt`).
+
+  `insert` first looks the key up (replacing in place if present) and otherwise
+  inserts before the first larger key; on sorted lists under a strict total
+  order this is exactly `BTreeMap::insert`, and membership / distinctness facts
+  hold without any assumption on the order.
 -/
 import Frost.Model.Basic
 
@@ -24,25 +29,33 @@ def keys (m : List (K × V)) : List K := m.map (·.1)
 /-- `BTreeMap::values` -/
 def values (m : List (K × V)) : List V := m.map (·.2)
 
-/-- `BTreeMap::insert` (replaces an existing entry; keeps ascending order). -/
-def insert (lt : K → K → Bool) : List (K × V) → K → V → List (K × V)
+/-- overwrite the value stored under an existing key -/
+def replace : List (K × V) → K → V → List (K × V)
+  | [], _, _ => []
+  | (k', v') :: rest, k, v => if k' = k then (k, v) :: rest else (k', v') :: replace rest k v
+
+/-- insert a new entry before the first larger key -/
+def orderedInsert (lt : K → K → Bool) : List (K × V) → K → V → List (K × V)
   | [], k, v => [(k, v)]
   | (k', v') :: rest, k, v =>
-    if k' = k then (k, v) :: rest
-    else if lt k k' then (k, v) :: (k', v') :: rest
-    else (k', v') :: insert lt rest k v
+    if lt k k' then (k, v) :: (k', v') :: rest else (k', v') :: orderedInsert lt rest k v
+
+/-- `BTreeMap::insert` -/
+def insert (lt : K → K → Bool) (m : List (K × V)) (k : K) (v : V) : List (K × V) :=
+  if contains m k then replace m k v else orderedInsert lt m k v
 
 /-- `iter.collect::<BTreeMap<_,_>>()` -/
 def ofList (lt : K → K → Bool) (l : List (K × V)) : List (K × V) :=
   l.foldl (fun m kv => insert lt m kv.1 kv.2) []
 
-/-- `BTreeSet::insert` -/
-def setInsert (lt : K → K → Bool) : List K → K → List K
+/-- insert a new key before the first larger key -/
+def setOrderedInsert (lt : K → K → Bool) : List K → K → List K
   | [], k => [k]
-  | k' :: rest, k =>
-    if k' = k then k' :: rest
-    else if lt k k' then k :: k' :: rest
-    else k' :: setInsert lt rest k
+  | k' :: rest, k => if lt k k' then k :: k' :: rest else k' :: setOrderedInsert lt rest k
+
+/-- `BTreeSet::insert` -/
+def setInsert (lt : K → K → Bool) (l : List K) (k : K) : List K :=
+  if l.contains k then l else setOrderedInsert lt l k
 
 /-- `iter.collect::<BTreeSet<_>>()` -/
 def setOfList (lt : K → K → Bool) (l : List K) : List K :=
